@@ -262,7 +262,8 @@ def run(case):
             g.nodes[b_]['position'] = g.nodes[a_]['position'] + np.array([0.0, 0.0, 1.1])
         txt += ' [nodes carry 3D positions, mode %d]' % mode
     np.random.seed(case['sub'] % (2 ** 31))
-    align = [None, None, np.array([1.0, 0.0]), np.array([0.0, 1.0]), np.array([1.0, 1.0])][case['sub'] % 5]
+    # (the axis as float array and as integer array, as a caller writes np.array([1, 1]))
+    align = [None, None, np.array([1.0, 0.0]), np.array([0.0, 1.0]), np.array([1.0, 1.0]), np.array([1, 1]), np.array([2, 1]), np.array([3, -4])][case['sub'] % 8]
     positional = case['sub'] % 3 == 1       # the bond length (and the axis) handed over by position instead of by keyword
     try:
         if align is None:
